@@ -553,7 +553,7 @@ class ASTCastFunctionExpression(ASTFunctionExpressionBase):
     def source(self, sql_type: SQLType = SQLType.DEFAULT) -> str:
         """返回语法节点的 SQL 源码"""
         return (f"{self.name.source()}"
-                f"({self.column_expression.source(sql_type)} AS {self.cast_type.source(sql_type)})")
+                f"({_operand_source(self.column_expression, sql_type, 8)} AS {self.cast_type.source(sql_type)})")
 
 
 @dataclasses.dataclass(slots=True, frozen=True, eq=True)
@@ -567,8 +567,8 @@ class ASTExtractFunctionExpression(ASTFunctionExpressionBase):
 
     def source(self, sql_type: SQLType = SQLType.DEFAULT) -> str:
         """返回语法节点的 SQL 源码"""
-        return (f"{self.name.source()}({self.extract_name.source(sql_type)} "
-                f"FROM {self.column_expression.source(sql_type)})")
+        return (f"{self.name.source()}({_operand_source(self.extract_name, sql_type, 8)} "
+                f"FROM {_operand_source(self.column_expression, sql_type, 8)})")
 
 
 @dataclasses.dataclass(slots=True, frozen=True, eq=True)
@@ -625,7 +625,7 @@ class ASTWindowExpression(ASTExpressionBase):
         result = f"{self.window_function.source(sql_type)} OVER ("
         parenthesis = []
         if len(self.partition_by_columns) > 0:
-            partition_by_str = ", ".join([column.source(sql_type) for column in self.partition_by_columns])
+            partition_by_str = ", ".join([_operand_source(column, sql_type, 8) for column in self.partition_by_columns])
             parenthesis.append(f"PARTITION BY {partition_by_str}")
         if len(self.order_by_columns) > 0:
             order_by_str = ", ".join([column.source(sql_type) for column in self.order_by_columns])
@@ -743,7 +743,7 @@ class ASTIndexExpression(ASTExpressionBase):
         """返回语法节点的 SQL 源码"""
         if sql_type != SQLType.HIVE:
             raise NotSupportError(f"数组下标不支持SQL类型:{sql_type}")
-        return f"{self.array.source(sql_type)}[{self.idx.source(sql_type)}]"
+        return f"{self.array.source(sql_type)}[{_operand_source(self.idx, sql_type, 8)}]"
 
 
 @dataclasses.dataclass(slots=True, frozen=True, eq=True)
@@ -1066,7 +1066,7 @@ class ASTGroupByClause(ASTBase):
 
     def source(self, sql_type: SQLType = SQLType.DEFAULT) -> str:
         """返回语法节点的 SQL 源码"""
-        columns_str = ", ".join(column.source(sql_type) for column in self.columns)
+        columns_str = ", ".join(_operand_source(column, sql_type, 8) for column in self.columns)
         grouping_sets_str = f" {self.grouping_sets.source(sql_type)}" if self.grouping_sets is not None else ""
         with_cube_str = " WITH CUBE" if self.with_cube is True else ""
         with_rollup_str = " WITH ROLLUP" if self.with_rollup is True else ""
@@ -1103,9 +1103,10 @@ class ASTOrderByColumn(ASTBase):
         """返回语法节点的 SQL 源码"""
         nulls_first_str = " NULLS FIRST" if self.nulls_first else ""
         nulls_last_str = " NULLS LAST" if self.nulls_last else ""
+        column_str = _operand_source(self.column, sql_type, 8)
         if self.order.source(sql_type) == "ASC":
-            return f"{self.column.source(sql_type)}{nulls_first_str}{nulls_last_str}"
-        return f"{self.column.source(sql_type)} DESC{nulls_first_str}{nulls_last_str}"
+            return f"{column_str}{nulls_first_str}{nulls_last_str}"
+        return f"{column_str} DESC{nulls_first_str}{nulls_last_str}"
 
 
 @dataclasses.dataclass(slots=True, frozen=True, eq=True)
@@ -1146,7 +1147,7 @@ class ASTDistributeByClause(ASTBase):
 
     def source(self, sql_type: SQLType = SQLType.DEFAULT) -> str:
         """返回语法节点的 SQL 源码"""
-        return "DISTRIBUTE BY " + ", ".join(column.source(sql_type) for column in self.columns)
+        return "DISTRIBUTE BY " + ", ".join(_operand_source(column, sql_type, 8) for column in self.columns)
 
 
 # ---------------------------------------- CLUSTER BY 子句 ----------------------------------------
@@ -1160,7 +1161,7 @@ class ASTClusterByClause(ASTBase):
 
     def source(self, sql_type: SQLType = SQLType.DEFAULT) -> str:
         """返回语法节点的 SQL 源码"""
-        return "CLUSTER BY " + ", ".join(column.source(sql_type) for column in self.columns)
+        return "CLUSTER BY " + ", ".join(_operand_source(column, sql_type, 8) for column in self.columns)
 
 
 # ---------------------------------------- LIMIT 子句 ----------------------------------------
@@ -1468,9 +1469,9 @@ class ASTDefineColumnExpression(ASTBase):
         if self.is_auto_increment is True and sql_type == SQLType.MYSQL:
             res += " AUTO_INCREMENT"
         if self.default is not None and sql_type == SQLType.MYSQL:
-            res += f" DEFAULT {self.default.source(sql_type)}"
+            res += f" DEFAULT {_operand_source(self.default, sql_type, 8)}"
         if self.on_update is not None and sql_type == SQLType.MYSQL:
-            res += f" ON UPDATE {self.on_update.source(sql_type)}"
+            res += f" ON UPDATE {_operand_source(self.on_update, sql_type, 8)}"
         if self.comment is not None:
             res += f" COMMENT {self.comment}"
         return res
